@@ -231,3 +231,33 @@ def tokenize (tbl : Table) (alg : AtomAlg A) (steps : List (List String × Otype
   | .error (_, m) => .error m
 
 end SciVerif.C01
+
+namespace SciVerif.C01
+variable {A : Type}
+
+/-- number literals of the grammar: `digits[.digits*][e digits]` or `.digits[e digits]` -/
+def isGrammarLit (s : List Char) : Bool :=
+  let ds := s.takeWhile isDigit
+  let r1 := s.dropWhile isDigit
+  let frac := match r1 with
+    | '.' :: r => some (r.takeWhile isDigit, r.dropWhile isDigit)
+    | r => if ds.isEmpty then none else some ([], r)
+  match frac with
+  | none => false
+  | some (fs, r2) =>
+    (!ds.isEmpty || !fs.isEmpty) &&
+    (match r2 with
+     | [] => true
+     | 'e' :: r => !r.isEmpty && r.all isDigit
+     | _ => false)
+
+/-- all literals of an expression are grammar literals which the atom class reads as `lit` says -/
+def LitOK (alg : AtomAlg A) (lit : List Char → A) : E → Prop
+  | .num t => isGrammarLit t = true ∧ alg.parse t = some (lit t)
+  | .fn1 _ e => LitOK alg lit e
+  | .fn2 _ a b => LitOK alg lit a ∧ LitOK alg lit b
+  | .sign _ e => LitOK alg lit e
+  | .bin _ l r => LitOK alg lit l ∧ LitOK alg lit r
+  | .not e => LitOK alg lit e
+
+end SciVerif.C01
